@@ -90,4 +90,7 @@ NormRead(q) == [i \in 1..Len(q) |-> <<q[i][1], q[i][2], q[i][3], q[i][4], IF q[i
 DeliveryClauses(read1, read2) ==
   (IF BagOf(NormRead(read1)) # BagOf(NormDoc(da)) THEN {"C08.bag.pass1"} ELSE {}) \cup
   (IF BagOf(NormRead(read2)) # BagOf(NormDoc(da)) THEN {"C08.bag.pass2"} ELSE {})
+\* for large documents the bags are compared as canonically sorted sequences (sorted by the harness, compared here)
+BigBagClauses(expected, read1, read2) ==
+  (IF read1 # expected THEN {"C08.bag.pass1"} ELSE {}) \cup (IF read2 # expected THEN {"C08.bag.pass2"} ELSE {})
 =============================================================================
